@@ -1,12 +1,773 @@
 package main
 
+// Implementation-side oracle for C17. It re-applies the decoded rules ONE AT A TIME with the real
+// rule functions (cogyaml.*Rule.AsRewriteRule -> internal/veneers/{builder,option}) in the order the
+// rewriter uses, checks after every step, on the real data:
+//   * well-typedness (goWT) is preserved,
+//   * frame: builders / options the rule did not select are unchanged and keep their relative order,
+//   * the rule's contract (omit removes, rename only renames, duplicate yields an identical copy under
+//     the new name, array_to_append / map_to_index / unfold_boolean / struct_fields_as_* /
+//     disjunction_as_options still assign the same target),
+// and finally that this stepwise run ends in exactly what rewrite.Rewriter.ApplyTo returned.
+// Selectors are re-implemented here from the YAML structs (independently of the veneers package).
+
 import (
+	"fmt"
+	"strings"
+
 	"github.com/grafana/cog/internal/ast"
 	cogyaml "github.com/grafana/cog/internal/yaml"
 )
 
+/* ---------- well-typedness on the real data ---------- */
+
+func typeKeyErased(t ast.Type, alsoNullable bool) string {
+	t.Default = nil
+	if alsoNullable {
+		t.Nullable = false
+	}
+	return virType(t)
+}
+
+func goDeclared(args []ast.Argument, a ast.Argument) bool {
+	for _, d := range args {
+		if d.Name == a.Name && typeKeyErased(d.Type, true) == typeKeyErased(a.Type, true) {
+			return true
+		}
+	}
+	return false
+}
+
+func goStructFields(schemas ast.Schemas, t ast.Type) ([]ast.StructField, bool) {
+	r, st := c16Resolve(schemas, t)
+	if st != "ok" || !isRealStruct(r) {
+		return nil, false
+	}
+	return r.Struct.Fields, true
+}
+
+func goWalkPath(schemas ast.Schemas, args []ast.Argument, p ast.Path, cur ast.Type) string {
+	for _, it := range p {
+		if it.Index != nil {
+			r, st := c16Resolve(schemas, cur)
+			var v ast.Type
+			switch {
+			case st == "ok" && r.Kind == ast.KindArray && r.Array != nil:
+				v = r.Array.ValueType
+			case st == "ok" && r.Kind == ast.KindMap && r.Map != nil:
+				v = r.Map.ValueType
+			default:
+				return "index-into-non-collection"
+			}
+			if typeKeyErased(it.Type, false) != typeKeyErased(v, false) {
+				return "index-item-type"
+			}
+			if it.Index.Argument != nil && !goDeclared(args, *it.Index.Argument) {
+				return "index-argument-undeclared"
+			}
+		} else {
+			fs, ok := goStructFields(schemas, cur)
+			if !ok {
+				return "path-through-non-struct"
+			}
+			found := false
+			for _, f := range fs {
+				if f.Name == it.Identifier {
+					found = true
+					if typeKeyErased(it.Type, false) != typeKeyErased(f.Type, false) {
+						return "path-item-type"
+					}
+					break
+				}
+			}
+			if !found {
+				return "path-field-missing"
+			}
+		}
+		cur = it.Type
+		if it.TypeHint != nil {
+			cur = *it.TypeHint
+		}
+	}
+	return ""
+}
+
+func goValueWT(schemas ast.Schemas, args []ast.Argument, v ast.AssignmentValue) string {
+	if v.Argument != nil && !goDeclared(args, *v.Argument) {
+		return "value-argument-undeclared"
+	}
+	if v.Envelope != nil {
+		if _, ok := goStructFields(schemas, v.Envelope.Type); !ok {
+			return "envelope-not-struct"
+		}
+		for _, ev := range v.Envelope.Values {
+			if why := goWalkPath(schemas, args, ev.Path, v.Envelope.Type); why != "" {
+				return "envelope-" + why
+			}
+			if why := goValueWT(schemas, args, ev.Value); why != "" {
+				return why
+			}
+		}
+	}
+	return ""
+}
+
+func goAssignmentWT(schemas ast.Schemas, root ast.Type, args []ast.Argument, a ast.Assignment) string {
+	if len(a.Path) == 0 {
+		return "empty-path"
+	}
+	if why := goWalkPath(schemas, args, a.Path, root); why != "" {
+		return why
+	}
+	if why := goValueWT(schemas, args, a.Value); why != "" {
+		return why
+	}
+	for _, c := range a.Constraints {
+		if !goDeclared(args, c.Argument) {
+			return "constraint-argument-undeclared"
+		}
+	}
+	return ""
+}
+
+// goWT: "" when well-typed, else "<where>:<why>"
+func goWT(schemas ast.Schemas, b ast.Builder) string {
+	for i, a := range b.Constructor.Assignments {
+		if why := goAssignmentWT(schemas, b.For.Type, b.Constructor.Args, a); why != "" {
+			return fmt.Sprintf("constructor[%d]:%s", i, why)
+		}
+	}
+	for _, o := range b.Options {
+		for i, a := range o.Assignments {
+			if why := goAssignmentWT(schemas, b.For.Type, o.Args, a); why != "" {
+				return fmt.Sprintf("option %s[%d]:%s", o.Name, i, why)
+			}
+		}
+	}
+	return ""
+}
+
+func goWTBits(schemas ast.Schemas, bs []ast.Builder) string {
+	var sb strings.Builder
+	for _, b := range bs {
+		if goWT(schemas, b) == "" {
+			sb.WriteByte('t')
+		} else {
+			sb.WriteByte('f')
+		}
+	}
+	return sb.String()
+}
+
+/* ---------- snapshots (rules mutate in place: everything is compared as text) ---------- */
+
+type optSnap struct {
+	name     string
+	vir      string
+	virNoName string
+	paths    []string
+	nArgs    int
+	hasDflt  bool
+}
+
+type bSnap struct {
+	key   string // pkg.object/name
+	vir   string
+	head  string // everything but the options
+	headNoName string
+	opts  []optSnap
+	wt    string
+	nFact int
+}
+
+func snapOpt(o ast.Option) optSnap {
+	s := optSnap{name: o.Name, vir: virOption(o), nArgs: len(o.Args), hasDflt: o.Default != nil}
+	o2 := o
+	o2.Name = ""
+	s.virNoName = virOption(o2)
+	for _, a := range o.Assignments {
+		s.paths = append(s.paths, virPath(a.Path))
+	}
+	return s
+}
+
+func snapBuilder(schemas ast.Schemas, b ast.Builder) bSnap {
+	s := bSnap{key: b.For.SelfRef.ReferredPkg + "." + b.For.Name + "/" + b.Name, vir: virBuilder(b), wt: goWT(schemas, b), nFact: len(b.Factories)}
+	b2 := b
+	b2.Options = nil
+	s.head = virBuilder(b2)
+	b2.Name = ""
+	s.headNoName = virBuilder(b2)
+	for _, o := range b.Options {
+		s.opts = append(s.opts, snapOpt(o))
+	}
+	return s
+}
+
+func snapAll(schemas ast.Schemas, bs []ast.Builder) []bSnap {
+	out := make([]bSnap, 0, len(bs))
+	for _, b := range bs {
+		out = append(out, snapBuilder(schemas, b))
+	}
+	return out
+}
+
+/* ---------- selectors, re-implemented ---------- */
+
+func oracleBSel(sel cogyaml.BuilderSelector, pkg string, schemas ast.Schemas, b ast.Builder) bool {
+	switch {
+	case sel.ByObject != nil:
+		return strings.EqualFold(b.For.SelfRef.ReferredPkg, pkg) && strings.EqualFold(b.For.SelfRef.ReferredType, *sel.ByObject)
+	case sel.ByName != nil:
+		return strings.EqualFold(b.For.SelfRef.ReferredPkg, pkg) && strings.EqualFold(b.Name, *sel.ByName)
+	case sel.ByVariant != nil:
+		for _, s := range schemas {
+			if s.Package == b.For.SelfRef.ReferredPkg {
+				return string(s.Metadata.Kind) == "composable" && string(s.Metadata.Variant) == *sel.ByVariant && s.Metadata.Identifier != ""
+			}
+		}
+		return false
+	case sel.GeneratedFromDisjunction != nil:
+		r, st := c16Resolve(schemas, b.For.Type)
+		return st == "ok" && r.Kind == ast.KindStruct && (r.Hints["disjunction_of_scalars"] != nil || r.Hints["disjunction_of_refs"] != nil)
+	}
+	return false
+}
+
+func foldIn(needle string, hay []string) bool {
+	for _, h := range hay {
+		if strings.EqualFold(h, needle) {
+			return true
+		}
+	}
+	return false
+}
+
+func oracleOSel(sel cogyaml.OptionSelector, pkg string, b ast.Builder, o ast.Option) bool {
+	byName := func(obj string, names []string) bool {
+		return b.For.SelfRef.ReferredPkg == pkg && strings.EqualFold(b.For.Name, obj) && foldIn(o.Name, names)
+	}
+	byBuilder := func(bn string, names []string) bool {
+		return b.Package == pkg && strings.EqualFold(b.Name, bn) && foldIn(o.Name, names)
+	}
+	switch {
+	case sel.ByName != nil:
+		obj, name, _ := strings.Cut(*sel.ByName, ".")
+		return byName(obj, []string{name})
+	case sel.ByBuilder != nil:
+		bn, name, _ := strings.Cut(*sel.ByBuilder, ".")
+		return byBuilder(bn, []string{name})
+	case sel.ByNames != nil:
+		if sel.ByNames.Builder != "" {
+			return byBuilder(sel.ByNames.Builder, sel.ByNames.Options)
+		}
+		return byName(sel.ByNames.Object, sel.ByNames.Options)
+	}
+	return false
+}
+
+/* ---------- the rules in execution order ---------- */
+
+type vStep struct {
+	isBuilder bool
+	pkg       string
+	kind      string
+	b         cogyaml.BuilderRule
+	o         cogyaml.OptionRule
+	endOfPhase bool // after this step the rewriter dismisses option-less builders
+}
+
+func bRuleKind(r cogyaml.BuilderRule) (string, *cogyaml.BuilderSelector) {
+	switch {
+	case r.Omit != nil:
+		return "omit", r.Omit
+	case r.Rename != nil:
+		return "rename", &r.Rename.BuilderSelector
+	case r.MergeInto != nil:
+		d := r.MergeInto.Destination
+		return "merge_into", &cogyaml.BuilderSelector{ByName: &d}
+	case r.ComposeBuilders != nil:
+		return "compose", &r.ComposeBuilders.BuilderSelector
+	case r.Properties != nil:
+		return "properties", &r.Properties.BuilderSelector
+	case r.Duplicate != nil:
+		return "duplicate", &r.Duplicate.BuilderSelector
+	case r.Initialize != nil:
+		return "initialize", &r.Initialize.BuilderSelector
+	case r.PromoteOptsToConstructor != nil:
+		return "promote", &r.PromoteOptsToConstructor.BuilderSelector
+	case r.AddOption != nil:
+		return "add_option", &r.AddOption.BuilderSelector
+	case r.AddFactory != nil:
+		return "add_factory", &r.AddFactory.BuilderSelector
+	}
+	return "empty", nil
+}
+
+func oRuleKind(r cogyaml.OptionRule) (string, *cogyaml.OptionSelector) {
+	switch {
+	case r.Omit != nil:
+		return "omit", r.Omit
+	case r.Rename != nil:
+		return "rename", &r.Rename.OptionSelector
+	case r.RenameArguments != nil:
+		return "rename_arguments", &r.RenameArguments.OptionSelector
+	case r.UnfoldBoolean != nil:
+		return "unfold_boolean", &r.UnfoldBoolean.OptionSelector
+	case r.StructFieldsAsArguments != nil:
+		return "struct_fields_as_arguments", &r.StructFieldsAsArguments.OptionSelector
+	case r.StructFieldsAsOptions != nil:
+		return "struct_fields_as_options", &r.StructFieldsAsOptions.OptionSelector
+	case r.ArrayToAppend != nil:
+		return "array_to_append", &r.ArrayToAppend.OptionSelector
+	case r.MapToIndex != nil:
+		return "map_to_index", &r.MapToIndex.OptionSelector
+	case r.DisjunctionAsOptions != nil:
+		return "disjunction_as_options", &r.DisjunctionAsOptions.OptionSelector
+	case r.Duplicate != nil:
+		return "duplicate", &r.Duplicate.OptionSelector
+	case r.AddAssignment != nil:
+		return "add_assignment", &r.AddAssignment.OptionSelector
+	case r.AddComments != nil:
+		return "add_comments", &r.AddComments.OptionSelector
+	}
+	return "empty", nil
+}
+
+func executionOrder(language string, files []cogyaml.Veneers) []vStep {
+	steps := []vStep{}
+	for _, l := range []string{"all", language} {
+		for _, f := range files {
+			if f.Language != l {
+				continue
+			}
+			for _, r := range f.Builders {
+				k, _ := bRuleKind(r)
+				steps = append(steps, vStep{isBuilder: true, pkg: f.Package, kind: k, b: r})
+			}
+		}
+		for _, f := range files {
+			if f.Language != l {
+				continue
+			}
+			for _, r := range f.Options {
+				k, _ := oRuleKind(r)
+				steps = append(steps, vStep{pkg: f.Package, kind: k, o: r})
+			}
+		}
+		steps = append(steps, vStep{kind: "dismiss", endOfPhase: true})
+	}
+	return steps
+}
+
+/* ---------- the oracle ---------- */
+
+type stepOutcome struct {
+	status string // ok | err | panic
+}
+
+func applyStep(schemas ast.Schemas, bs []ast.Builder, st vStep) (out []ast.Builder, status string) {
+	defer func() {
+		if e := recover(); e != nil {
+			out, status = nil, "panic"
+		}
+	}()
+	if st.endOfPhase {
+		kept := []ast.Builder{}
+		for _, b := range bs {
+			if len(b.Options) != 0 {
+				kept = append(kept, b)
+			}
+		}
+		return kept, "ok"
+	}
+	if st.isBuilder {
+		rule, err := st.b.AsRewriteRule(st.pkg)
+		if err != nil {
+			return nil, "err"
+		}
+		res, err := rule(schemas, bs)
+		if err != nil {
+			return nil, "err"
+		}
+		return res, "ok"
+	}
+	rule, err := st.o.AsRewriteRule(st.pkg)
+	if err != nil {
+		return nil, "err"
+	}
+	for i, b := range bs {
+		processed := make([]ast.Option, 0, len(b.Options))
+		for _, opt := range b.Options {
+			if !rule.Selector(b, opt) {
+				processed = append(processed, opt)
+				continue
+			}
+			processed = append(processed, rule.Action(schemas, b, opt)...)
+		}
+		bs[i].Options = processed
+	}
+	return bs, "ok"
+}
+
+func isSubsequence(sub, seq []string) bool {
+	j := 0
+	for _, s := range seq {
+		if j < len(sub) && sub[j] == s {
+			j++
+		}
+	}
+	return j == len(sub)
+}
+
+func optVirs(os []optSnap) []string {
+	out := make([]string, len(os))
+	for i, o := range os {
+		out[i] = o.vir
+	}
+	return out
+}
+
+func hasPrefixPath(path, prefix string) bool {
+	// paths are printed "(path item item …)": prefix relation on the item lists
+	p := strings.TrimSuffix(prefix, ")")
+	return path == prefix || strings.HasPrefix(path, p+" ")
+}
+
+// WT preservation is claimed for these rules unconditionally; merge_into / add_option / add_assignment
+// depend on the rule's own parameters being well-typed (their under_path / declared arguments) and
+// are not flagged here.
+var wtClaimed = map[string]bool{"omit": true, "rename": true, "compose": true, "properties": true, "duplicate": true,
+	"initialize": true, "promote": true, "add_factory": true, "rename_arguments": true, "unfold_boolean": true,
+	"struct_fields_as_arguments": true, "struct_fields_as_options": true, "array_to_append": true, "map_to_index": true,
+	"disjunction_as_options": true, "add_comments": true, "dismiss": true}
+
+func c17OracleRun(cs c17Case, decoded []cogyaml.Veneers, wantStatus string, wantVir string) (verdict string, stats string) {
+	bs, pm := runFromAST(cs.schemas)
+	if pm != "" {
+		return "ok", ""
+	}
+	steps := executionOrder(cs.language, decoded)
+	everSelected := map[string]bool{}
+	statParts := []string{}
+	fail := ""
+	setFail := func(s string) {
+		if fail == "" {
+			fail = s
+		}
+	}
+	status := "ok"
+	for _, st := range steps {
+		before := snapAll(cs.schemas, bs)
+		selB := make([]bool, len(bs))
+		selO := make([][]bool, len(bs))
+		nSel := 0
+		if st.isBuilder {
+			_, sel := bRuleKind(st.b)
+			for i, b := range bs {
+				if sel != nil && oracleBSel(*sel, st.pkg, cs.schemas, b) {
+					selB[i] = true
+					nSel++
+					everSelected[before[i].key] = true
+				}
+			}
+		} else if !st.endOfPhase {
+			_, sel := oRuleKind(st.o)
+			for i, b := range bs {
+				selO[i] = make([]bool, len(b.Options))
+				for j, o := range b.Options {
+					if sel != nil && oracleOSel(*sel, st.pkg, b, o) {
+						selO[i][j] = true
+						nSel++
+						everSelected[before[i].key] = true
+					}
+				}
+			}
+		}
+		var out []ast.Builder
+		out, status = applyStep(cs.schemas, bs, st)
+		if status != "ok" {
+			statParts = append(statParts, fmt.Sprintf("%s:%s", st.kind, status))
+			break
+		}
+		bs = out
+		after := snapAll(cs.schemas, bs)
+		statParts = append(statParts, fmt.Sprintf("%s:%d", st.kind, nSel))
+		who := st.kind
+		if st.isBuilder {
+			who = "builder-" + st.kind
+		} else if !st.endOfPhase {
+			who = "option-" + st.kind
+		}
+
+		// --- frame and contracts
+		switch {
+		case st.endOfPhase:
+			kept := []string{}
+			for _, b := range before {
+				if len(b.opts) != 0 {
+					kept = append(kept, b.vir)
+				} else if !everSelected[b.key] {
+					setFail(fmt.Sprintf("FAIL frame-dismissed(option-less-builder): builder %s was selected by no rule, has no options, and is dismissed by applyOptionRules", b.key))
+				}
+			}
+			_ = kept
+		case st.isBuilder:
+			c17CheckBuilderStep(st, who, before, after, selB, setFail)
+		default:
+			c17CheckOptionStep(st, who, before, after, selO, setFail)
+		}
+
+		// --- well-typedness preserved
+		if wtClaimed[st.kind] {
+			allBefore := true
+			for _, b := range before {
+				if b.wt != "" {
+					allBefore = false
+				}
+			}
+			if allBefore {
+				for _, a := range after {
+					if a.wt != "" {
+						setFail(fmt.Sprintf("FAIL wt-broken(%s): builder %s: %s", who, a.key, a.wt))
+						break
+					}
+				}
+			}
+		}
+		if fail != "" {
+			break
+		}
+	}
+	stats = strings.Join(statParts, ",")
+	if fail != "" {
+		return fail, stats
+	}
+	// the stepwise run must end where the real rewriter ended
+	if status != wantStatus {
+		return fmt.Sprintf("FAIL stepper-disagrees: stepwise application ended %q, Rewriter.ApplyTo ended %q", status, wantStatus), stats
+	}
+	if status == "ok" && virBuilders(bs) != wantVir {
+		return "FAIL stepper-disagrees: stepwise application of the rule functions and Rewriter.ApplyTo produce different builders", stats
+	}
+	return "ok", stats
+}
+
+func c17CheckBuilderStep(st vStep, who string, before, after []bSnap, sel []bool, setFail func(string)) {
+	virs := func(ss []bSnap) []string {
+		out := make([]string, len(ss))
+		for i, s := range ss {
+			out[i] = s.vir
+		}
+		return out
+	}
+	switch st.kind {
+	case "omit":
+		want := []string{}
+		for i, b := range before {
+			if !sel[i] {
+				want = append(want, b.vir)
+			}
+		}
+		if strings.Join(want, "\n") != strings.Join(virs(after), "\n") {
+			setFail(fmt.Sprintf("FAIL contract-omit(%s): result is not exactly the unselected builders in order", who))
+		}
+	case "duplicate":
+		if len(after) < len(before) || strings.Join(virs(before), "\n") != strings.Join(virs(after[:len(before)]), "\n") {
+			setFail(fmt.Sprintf("FAIL frame-builders(%s): the existing builders changed", who))
+			return
+		}
+		k := len(before)
+		for i, b := range before {
+			if !sel[i] {
+				continue
+			}
+			if k >= len(after) {
+				setFail(fmt.Sprintf("FAIL contract-duplicate(%s): no copy of %s", who, b.key))
+				return
+			}
+			cp := after[k]
+			k++
+			if cp.headNoName != b.headNoName {
+				what := "members"
+				if cp.nFact != b.nFact {
+					what = "factories"
+				}
+				setFail(fmt.Sprintf("FAIL contract-duplicate(%s): the copy of %s differs from the original in its %s", who, b.key, what))
+				return
+			}
+			ex := st.b.Duplicate.ExcludeOptions
+			want := []optSnap{}
+			for _, o := range b.opts {
+				if len(ex) != 0 && foldIn(o.name, ex) {
+					continue
+				}
+				want = append(want, o)
+			}
+			if len(want) != len(cp.opts) {
+				setFail(fmt.Sprintf("FAIL contract-duplicate(%s): the copy of %s has %d options, expected %d", who, b.key, len(cp.opts), len(want)))
+				return
+			}
+			for j := range want {
+				if want[j].vir != cp.opts[j].vir {
+					what := "members"
+					if want[j].hasDflt && !cp.opts[j].hasDflt {
+						what = "default"
+					}
+					setFail(fmt.Sprintf("FAIL contract-duplicate(%s): option %s of the copy of %s lost/changed its %s", who, want[j].name, b.key, what))
+					return
+				}
+			}
+		}
+		if k != len(after) {
+			setFail(fmt.Sprintf("FAIL contract-duplicate(%s): %d extra builders", who, len(after)-k))
+		}
+	case "compose":
+		want := []string{}
+		for i, b := range before {
+			if !sel[i] {
+				want = append(want, b.vir)
+			}
+		}
+		// unselected builders unchanged, in order, first (when the source builder exists; otherwise nothing changes at all)
+		if strings.Join(virs(before), "\n") == strings.Join(virs(after), "\n") {
+			return
+		}
+		if len(after) < len(want) || strings.Join(want, "\n") != strings.Join(virs(after[:len(want)]), "\n") {
+			setFail(fmt.Sprintf("FAIL frame-builders(%s): unselected builders changed or moved", who))
+		}
+	default:
+		// in-place rules: same builders, same order; unselected ones identical
+		if len(after) != len(before) {
+			setFail(fmt.Sprintf("FAIL frame-builders(%s): number of builders changed from %d to %d", who, len(before), len(after)))
+			return
+		}
+		for i := range before {
+			if !sel[i] && before[i].vir != after[i].vir {
+				setFail(fmt.Sprintf("FAIL frame-builders(%s): unselected builder %s changed", who, before[i].key))
+				return
+			}
+		}
+		if st.kind == "rename" {
+			for i := range before {
+				if sel[i] && (before[i].headNoName != after[i].headNoName || strings.Join(optVirs(before[i].opts), "\n") != strings.Join(optVirs(after[i].opts), "\n")) {
+					setFail(fmt.Sprintf("FAIL contract-rename(%s): builder %s changed in more than its name", who, before[i].key))
+					return
+				}
+			}
+		}
+	}
+}
+
+func c17CheckOptionStep(st vStep, who string, before, after []bSnap, sel [][]bool, setFail func(string)) {
+	if len(after) != len(before) {
+		setFail(fmt.Sprintf("FAIL frame-builders(%s): an option rule changed the number of builders", who))
+		return
+	}
+	for i := range before {
+		b, a := before[i], after[i]
+		if b.head != a.head {
+			setFail(fmt.Sprintf("FAIL frame-builder-members(%s): an option rule changed builder %s outside its options (constructor / properties / factories / name)", who, b.key))
+			return
+		}
+		unsel := []string{}
+		selIdx := []int{}
+		for j, o := range b.opts {
+			if sel[i][j] {
+				selIdx = append(selIdx, j)
+			} else {
+				unsel = append(unsel, o.vir)
+			}
+		}
+		if !isSubsequence(unsel, optVirs(a.opts)) {
+			setFail(fmt.Sprintf("FAIL frame-options(%s): an unselected option of builder %s changed or moved", who, b.key))
+			return
+		}
+		if len(selIdx) != 1 {
+			continue // several selected options in one builder: outputs cannot be aligned without knowing their count
+		}
+		j := selIdx[0]
+		tail := len(b.opts) - j - 1
+		if len(a.opts) < j+tail {
+			setFail(fmt.Sprintf("FAIL frame-options(%s): options of builder %s were lost", who, b.key))
+			return
+		}
+		for x := 0; x < j; x++ {
+			if a.opts[x].vir != b.opts[x].vir {
+				setFail(fmt.Sprintf("FAIL frame-options(%s): an unselected option of builder %s changed or moved", who, b.key))
+				return
+			}
+		}
+		for x := 0; x < tail; x++ {
+			if a.opts[len(a.opts)-tail+x].vir != b.opts[j+1+x].vir {
+				setFail(fmt.Sprintf("FAIL frame-options(%s): an unselected option of builder %s changed or moved", who, b.key))
+				return
+			}
+		}
+		outs := a.opts[j : len(a.opts)-tail]
+		old := b.opts[j]
+		c17CheckOptionContract(st, who, b.key, old, outs, setFail)
+	}
+}
+
+func c17CheckOptionContract(st vStep, who, bkey string, old optSnap, outs []optSnap, setFail func(string)) {
+	where := bkey + "." + old.name
+	sameTarget := func(o optSnap) bool { // every assignment of o targets the old first target or below it
+		if len(old.paths) == 0 {
+			return true
+		}
+		for _, p := range o.paths {
+			ok := false
+			for _, q := range old.paths {
+				if hasPrefixPath(p, q) {
+					ok = true
+				}
+			}
+			if !ok {
+				return false
+			}
+		}
+		return true
+	}
+	switch st.kind {
+	case "omit":
+		if len(outs) != 0 {
+			setFail(fmt.Sprintf("FAIL contract-omit(%s): option %s is still there", who, where))
+		}
+	case "rename":
+		if len(outs) != 1 || outs[0].virNoName != old.virNoName || outs[0].name != st.o.Rename.As {
+			setFail(fmt.Sprintf("FAIL contract-rename(%s): option %s changed in more than its name", who, where))
+		}
+	case "duplicate":
+		if len(outs) != 2 || outs[0].vir != old.vir {
+			setFail(fmt.Sprintf("FAIL contract-duplicate(%s): the original option %s is not kept as is", who, where))
+			return
+		}
+		if outs[1].name != st.o.Duplicate.As || outs[1].virNoName != old.virNoName {
+			what := "members"
+			if old.hasDflt && !outs[1].hasDflt {
+				what = "default"
+			}
+			setFail(fmt.Sprintf("FAIL contract-duplicate(%s): the copy of option %s lost/changed its %s", who, where, what))
+		}
+	case "array_to_append", "map_to_index", "unfold_boolean", "struct_fields_as_arguments", "struct_fields_as_options", "disjunction_as_options", "rename_arguments", "add_comments":
+		for _, o := range outs {
+			if !sameTarget(o) {
+				setFail(fmt.Sprintf("FAIL contract-same-target(%s): an option produced from %s assigns outside the original target", who, where))
+				return
+			}
+		}
+	}
+}
+
+func c17OracleFailed(cs c17Case, decoded []cogyaml.Veneers, status string) string {
+	v, _ := c17OracleRun(cs, decoded, status, "")
+	return v
+}
+
+func c17Oracle(cs c17Case, decoded []cogyaml.Veneers, out []ast.Builder) string {
+	v, _ := c17OracleRun(cs, decoded, "ok", virBuilders(out))
+	return v
+}
+
 func c17Pinned(name string) c17Case { return c17Case{} }
-
-func c17OracleFailed(cs c17Case, decoded []cogyaml.Veneers, status string) string { return "ok" }
-
-func c17Oracle(cs c17Case, decoded []cogyaml.Veneers, out []ast.Builder) string { return "ok" }
